@@ -129,13 +129,21 @@ def run_case(c):
             fail('premature_exit', f'{tag}: returned only {mp} vectors, Krylov dimension is {kdim}, reference off-diagonal {sub[mp-1]}')
         Vp = V[:, :p]
         G = Vp.conj().T @ Vp
-        if not oracle.close(G, np.identity(p), scale=1.0, tol=c.get('otol', 1e-9)):
+        otol = c.get('otol', 1e-9)
+        if c['kind'] == 'arnoldi' and p >= 2:
+            # Arnoldi (modified Gram-Schmidt, no re-orthogonalization) divides by the sub-diagonal: a rounding error eps * |A| in w becomes
+            # eps * |A| / h_{j+1,j} in the next vector.  Close to (but above the threshold of) exhaustion this is rounding, not a defect:
+            # the tolerance follows the smallest *reference* sub-diagonal (computed independently of the routine)
+            smin = float(np.min(sub[:p - 1])) if len(sub) >= p - 1 and p - 1 > 0 else 0.0
+            if smin > 0:
+                otol = max(otol, 200 * n * np.finfo(float).eps * sc / smin)
+        if not oracle.close(G, np.identity(p), scale=1.0, tol=otol):
             fail('orthonormal', f'{tag}: |V^H V - I| on the leading {p} vectors = {np.linalg.norm(G - np.identity(p))}')
         # first vector is the normalised start vector
         if not oracle.close(Vp[:, 0] * np.linalg.norm(v), v, scale=float(np.linalg.norm(v)), tol=1e-9):
             fail('first_vector', f'{tag}: V[:,0] is not the normalised start vector')
         PT = Vp.conj().T @ A @ Vp
-        if not oracle.close(PT, T, scale=sc, tol=c.get('otol', 1e-9)):
+        if not oracle.close(PT, T, scale=sc, tol=otol):
             fail('projection', f'{tag}: |V^H A V - T| on the leading {p}x{p} part = {np.linalg.norm(PT - T)} (|A| = {nA})')
     # history: a result must not change when the routine is called again with arguments of the same size (second call)
     if not fails:
